@@ -7,14 +7,16 @@
   container), a GMX v1 market (`Demeter.GmxV1`) and a Deribit option market (`Demeter.Deribit`); a call does what those models'
   `step` / `update` / `set_market_status` / `get_market_balance` (cache) do.  Here the per-market theorems (`C01_uni_balance_eq_spec`,
   `C01_squeeth_balance_from_raw_state` + the value-level once equation, `C01_gmx_v1_balance`, `C01_deribit_open_bar_value`) are
-  composed with the broker sum (`C01_broker_reported_eq_spec`).  Not composed: Aave (its reported value is quantised to 1e-4, an
-  inequality) and GMX v2 (float valuation):
+  composed with the broker sum (`C01_broker_reported_eq_spec`); the Aave market (`Demeter.Aave`, market 5) enters with its reported
+  value, which `C01_aave_net_value_within_quantum` ties to supplies − debts within the 1e-4 quantisation.  Not composed: GMX v2 (float
+  valuation):
 
     net value of row k  =  Σ wallet·price  +  conv₀ · Σ_{free positions of market 0} value
                           +  conv₁ · Σ_{free positions of the oSQTH/WETH pool} value at the pool price
                           +  conv₂ · ((Σ_{lent positions} value at the index price + Σ vault collateral) · WETH − Σ short · mark)
                           +  conv₃ · (GLP · glp_price + reward · wavax_price / 10³⁰)
                           +  conv₄ · (option cash + Σ amount · round(mark))          [on a bar of the hourly grid; off the grid the cached premium]
+                          +  conv₅ · (Aave: quantised supplies − debts, within 1e-4 of the recomputed totals)
 
   with `conv_m = 1` if market m's quote token is the account's, else the bar's price of that token — every holding once: the count
   invariant `Once` of the shared container is carried along the whole run (`C01_e2e_once_along_the_run`).
@@ -25,6 +27,7 @@ import Proofs.C01.SqueethValue
 import Proofs.C01.SqueethDict
 import Proofs.C01.Gmx
 import Proofs.C01.Deribit
+import Proofs.C01.Aave
 import Demeter.Actuator.Markets
 import Proofs.C01.UniSqueeth
 namespace Demeter
@@ -39,39 +42,20 @@ theorem e2e_sqCall_once (S : Setup) (w : World) (op : Squeeth.Op) (h : Squeeth.O
   C01_squeeth_counted_once_step S.cx w.env w.sqIn op (e2e_once_wallet h w.wallet)
 
 theorem e2e_opCall_once (S : Setup) (w : World) (m : Nat) (tag : String) (h : Squeeth.Once w.sq) : Squeeth.Once (opCall S w m tag).sq := by
-  unfold opCall
-  split
-  · unfold uniCall; split <;> exact h
-  · split
-    · split <;> exact h
-    · split
-      · split <;> exact h
-      · split
-        · exact h
-        · exact e2e_sqCall_once S w _ h
+  unfold opCall uniCall
+  repeat' split
+  all_goals first | exact h | exact e2e_sqCall_once S w _ h
 
 theorem e2e_eff_once (S : Setup) (e : Ev) (w : World) (h : Squeeth.Once w.sq) : Squeeth.Once (marketsEff S e w).sq := by
   cases e with
   | set ts m stage o src =>
     simp only [marketsEff, setCall]
-    split
-    · split <;> exact h
-    · split
-      · split <;> exact h
-      · split
-        · split <;> exact h
-        · split
-          · exact h
-          · split <;> exact h
+    repeat' split
+    all_goals exact h
   | update ts m =>
     simp only [marketsEff, updCall]
-    split
-    · exact h
-    · split
-      · exact e2e_sqCall_once S w _ h
-      · split
-        · exact h
-        · split <;> exact h
+    repeat' split
+    all_goals first | exact h | exact e2e_sqCall_once S w _ h
   | opOk ts hk m tag => exact e2e_opCall_once S w m tag h
   | opRej ts hk m tag c => cases c <;> [exact e2e_opCall_once S w m tag h; exact h]
   | opFree ts hk m tag ok => exact e2e_opCall_once S w m tag h
@@ -86,39 +70,20 @@ theorem e2e_sqCall_dict (S : Setup) (w : World) (op : Squeeth.Op) (h : Squeeth.D
   C01_squeeth_dict_step S.cx w.env w.sqIn op (Squeeth.keeps_of_fields (s := w.sq) (s' := w.sqIn) rfl rfl h)
 
 theorem e2e_opCall_dict (S : Setup) (w : World) (m : Nat) (tag : String) (h : Squeeth.Dict w.sq) : Squeeth.Dict (opCall S w m tag).sq := by
-  unfold opCall
-  split
-  · unfold uniCall; split <;> exact h
-  · split
-    · split <;> exact h
-    · split
-      · split <;> exact h
-      · split
-        · exact h
-        · exact e2e_sqCall_dict S w _ h
+  unfold opCall uniCall
+  repeat' split
+  all_goals first | exact h | exact e2e_sqCall_dict S w _ h
 
 theorem e2e_eff_dict (S : Setup) (e : Ev) (w : World) (h : Squeeth.Dict w.sq) : Squeeth.Dict (marketsEff S e w).sq := by
   cases e with
   | set ts m stage o src =>
     simp only [marketsEff, setCall]
-    split
-    · split <;> exact h
-    · split
-      · split <;> exact h
-      · split
-        · split <;> exact h
-        · split
-          · exact h
-          · split <;> exact h
+    repeat' split
+    all_goals exact h
   | update ts m =>
     simp only [marketsEff, updCall]
-    split
-    · exact h
-    · split
-      · exact e2e_sqCall_dict S w _ h
-      · split
-        · exact h
-        · split <;> exact h
+    repeat' split
+    all_goals first | exact h | exact e2e_sqCall_dict S w _ h
   | opOk ts hk m tag => exact e2e_opCall_dict S w m tag h
   | opRej ts hk m tag c => cases c <;> [exact e2e_opCall_dict S w m tag h; exact h]
   | opFree ts hk m tag ok => exact e2e_opCall_dict S w m tag h
@@ -155,10 +120,12 @@ theorem C01_e2e_row_is_wallet_plus_markets (S : Setup) (src : Option Int) (w : W
           let c2 ← S.conv src S.sqQuote
           let c3 ← S.conv src S.gmxQuote
           let c4 ← S.conv src S.derCfg.token
+          let c5 ← S.conv src S.aaveQuote
           pure (a + (nvOfUni (Uni.getMarketBalance S.K S.pool w.uniIn) * c0 +
             (Squeeth.uniNetValue S.cx w.env w.sqIn * c1 + (nvOfSq (Squeeth.marketBalance S.cx w.env w.sqIn) * c2 +
               (GmxV1.netValue S.cx w.genv w.gmxIn * c3 +
-                (nvOfDer (Deribit.getMarketBalance S.derCx S.derCfg w.derIn).1 * c4 + 0))))))) := by
+                (nvOfDer (Deribit.getMarketBalance S.derCx S.derCfg w.derIn).1 * c4 +
+                  (nvOfAave (Aave.step S.aaveCx w.aenv w.aaveIn (.read .marketBalance)).1 * c5 + 0)))))))) := by
   rw [C01_run_row_is_plain_sum]
   simp only [marketsValuation, marketsBalances, specNetValue, specMarkets, convFactor, Setup.conv]
   generalize specWallet (S.prices src) w.wallet = oa
@@ -167,7 +134,8 @@ theorem C01_e2e_row_is_wallet_plus_markets (S : Setup) (src : Option Int) (w : W
   generalize (if S.sqQuote = S.quote then some (1 : Rat) else AList.get? (S.prices src) S.sqQuote) = o2
   generalize (if S.gmxQuote = S.quote then some (1 : Rat) else AList.get? (S.prices src) S.gmxQuote) = o3
   generalize (if S.derCfg.token = S.quote then some (1 : Rat) else AList.get? (S.prices src) S.derCfg.token) = o4
-  cases oa <;> cases o0 <;> cases o1 <;> cases o2 <;> cases o3 <;> cases o4 <;> rfl
+  generalize (if S.aaveQuote = S.quote then some (1 : Rat) else AList.get? (S.prices src) S.aaveQuote) = o5
+  cases oa <;> cases o0 <;> cases o1 <;> cases o2 <;> cases o3 <;> cases o4 <;> cases o5 <;> rfl
 
 /-- **C01 end to end, one row.**  In any world `w` in which the three `get_market_balance` calls return (market 0: a status row, its
     price converts, every free position's amounts compute; Squeeth: the balance `bs`), with the count invariant and dict-shaped
@@ -176,31 +144,39 @@ theorem C01_e2e_row_is_wallet_plus_markets (S : Setup) (src : Option Int) (w : W
     position at the index price inside its vault's collateral, plus the ETH collateral, minus the short at mark, each converted by
     its market's quote-token price — every holding exactly once. -/
 theorem C01_e2e_row_value (S : Setup) (hK : S.K.cx = NumCtx.exact) (hcx : S.cx = NumCtx.exact) (hder : S.derCx = Deribit.DCtx.exact)
-    (src : Option Int) (w : World) (hgrid : w.der.onGrid = true)
+    (haave : S.aaveCx = aaveExact) (src : Option Int) (w : World) (hgrid : w.der.onGrid = true)
+    (hgood : Aave.Good aaveExact w.aenv w.aaveIn) (ab : Aave.Balance)
+    (hab : (Aave.step aaveExact w.aenv w.aaveIn (.read .marketBalance)).1 = .ok (.bal ab))
     (row : Uni.Row) (sqrt : Nat) (amt : Uni.Pos → Rat × Rat) (hrow : w.uni.row = some row)
     (hsqrt : S.K.priceToSqrt S.pool row.price = .ok sqrt)
     (hamt : ∀ p ∈ w.uni.positions, p.transferred = false → S.K.amounts S.pool sqrt p.lower p.upper p.liq p.liqDec = .ok (amt p))
     (bs : Squeeth.Balance) (hbs : Squeeth.marketBalance NumCtx.exact w.env w.sqIn = .ok bs)
     (honce : Squeeth.Once w.sq) (hnv : (w.sq.vaults.map (·.1)).Nodup) (hnp : (w.sq.positions.map (·.1)).Nodup)
-    (a c0 c1 c2 c3 c4 : Rat) (ha : specWallet (S.prices src) w.wallet = some a) (h0 : S.conv src S.pool.quoteTok = some c0)
+    (a c0 c1 c2 c3 c4 c5 : Rat) (ha : specWallet (S.prices src) w.wallet = some a) (h0 : S.conv src S.pool.quoteTok = some c0)
     (h1 : S.conv src Gen.sqWethName = some c1) (h2 : S.conv src S.sqQuote = some c2) (h3 : S.conv src S.gmxQuote = some c3)
-    (h4 : S.conv src S.derCfg.token = some c4) :
+    (h4 : S.conv src S.derCfg.token = some c4) (h5 : S.conv src S.aaveQuote = some c5) :
+    (∃ ts tb, Aave.specTotalSupply aaveExact w.aenv w.aave.supplies = .ok ts ∧ Aave.specTotalBorrows aaveExact w.aenv w.aave.borrows = .ok tb ∧
+      |ab.netValue - (ts - tb)| ≤ 1 / 10000) ∧
     (acctRow NumCtx.exact (marketsValuation S) src w).map (·.netValue) =
       some (a + Uni.sumOver (Uni.posValue S.pool row.price amt) w.uni.positions * c0 +
         Squeeth.sumIf (fun kp => !kp.2.transferred) (Squeeth.poolVal w.env) w.sq.positions * c1 +
         ((Squeeth.sumIf (fun kp => kp.2.transferred) (Squeeth.idxVal w.env) w.sq.positions + (w.sq.vaults.map (·.2.coll)).sum) * w.env.weth -
           (w.sq.vaults.map (·.2.short)).sum * (w.env.osqth * w.env.weth)) * c2 +
         (w.gmx.glp * w.genv.glpPrice + w.gmx.reward * (w.genv.wavaxPrice / 10 ^ 30)) * c3 +
-        (w.der.cash + Deribit.markValue S.derCfg w.der.book w.der.positions) * c4) := by
+        (w.der.cash + Deribit.markValue S.derCfg w.der.book w.der.positions) * c4 +
+        ab.netValue * c5) := by
+  refine ⟨by
+    obtain ⟨ts, tb, h1, h2, _, _, h3⟩ := C01_aave_net_value_within_quantum w.aaveIn hgood ab hab
+    exact ⟨ts, tb, h1, h2, h3⟩, ?_⟩
   obtain ⟨bd, hbd, hdnet, _⟩ := C01_deribit_open_bar_value S.derCfg w.derIn hgrid
   obtain ⟨b, hb, hnet, _⟩ := C01_uni_balance_eq_spec S.K hK S.pool w.uniIn row sqrt amt hrow hsqrt hamt
   -- the Squeeth side: raw-state formula, then the lent positions instead of the vaults' references
   obtain ⟨cs, hcs, _, _, hsnet, _⟩ := C01_squeeth_balance_from_raw_state w.env w.sqIn bs hbs
   have hsum := Squeeth.sum_effColl w.env w.sqIn w.sqIn.vaults cs (Squeeth.get?_of_mem _ hnv) hcs
   rw [Squeeth.sum_lentPart w.env w.sqIn (e2e_once_wallet honce w.wallet) hnv hnp] at hsum
-  rw [C01_e2e_row_is_wallet_plus_markets, ha, h0, h1, h2, h3, h4, hcx, hder, hb, hbs, hbd, C01_squeeth_pool_value_is_sum_over_free,
-    (C01_gmx_v1_balance w.genv w.gmxIn).1]
-  simp only [nvOfUni, nvOfSq, nvOfDer, hnet, hsnet, hsum, hdnet]
+  rw [C01_e2e_row_is_wallet_plus_markets, ha, h0, h1, h2, h3, h4, h5, hcx, hder, haave, hb, hbs, hbd, hab,
+    C01_squeeth_pool_value_is_sum_over_free, (C01_gmx_v1_balance w.genv w.gmxIn).1]
+  simp only [nvOfUni, nvOfSq, nvOfDer, nvOfAave, hnet, hsnet, hsum, hdnet]
   show some _ = some _
   congr 1
   show _ = _
@@ -230,28 +206,35 @@ theorem C01_e2e_run_rows (S : Setup) (w0 : World) (h0 : Squeeth.Once w0.sq) (hd 
     are "the three `get_market_balance` calls return" and "the prices are there" — then the row's net value is the independent valuation,
     every holding exactly once. -/
 theorem C01_e2e_row_value_after_calls (S : Setup) (hK : S.K.cx = NumCtx.exact) (hcx : S.cx = NumCtx.exact)
-    (hder : S.derCx = Deribit.DCtx.exact) (w0 : World)
+    (hder : S.derCx = Deribit.DCtx.exact) (haave : S.aaveCx = aaveExact) (w0 : World)
     (h0 : Squeeth.Once w0.sq) (hd : Squeeth.Dict w0.sq) (pre : List Ev) (src : Option Int)
     (hgrid : (worldAfter (marketsValuation S) pre w0).der.onGrid = true)
+    (hgood : Aave.Good aaveExact (worldAfter (marketsValuation S) pre w0).aenv (worldAfter (marketsValuation S) pre w0).aaveIn)
+    (ab : Aave.Balance)
+    (hab : (Aave.step aaveExact (worldAfter (marketsValuation S) pre w0).aenv (worldAfter (marketsValuation S) pre w0).aaveIn
+      (.read .marketBalance)).1 = .ok (.bal ab))
     (row : Uni.Row) (sqrt : Nat) (amt : Uni.Pos → Rat × Rat) (hrow : (worldAfter (marketsValuation S) pre w0).uni.row = some row)
     (hsqrt : S.K.priceToSqrt S.pool row.price = .ok sqrt)
     (hamt : ∀ p ∈ (worldAfter (marketsValuation S) pre w0).uni.positions, p.transferred = false →
       S.K.amounts S.pool sqrt p.lower p.upper p.liq p.liqDec = .ok (amt p))
     (bs : Squeeth.Balance)
     (hbs : Squeeth.marketBalance NumCtx.exact (worldAfter (marketsValuation S) pre w0).env (worldAfter (marketsValuation S) pre w0).sqIn = .ok bs)
-    (a c0 c1 c2 c3 c4 : Rat) (ha : specWallet (S.prices src) (worldAfter (marketsValuation S) pre w0).wallet = some a)
+    (a c0 c1 c2 c3 c4 c5 : Rat) (ha : specWallet (S.prices src) (worldAfter (marketsValuation S) pre w0).wallet = some a)
     (hc0 : S.conv src S.pool.quoteTok = some c0) (hc1 : S.conv src Gen.sqWethName = some c1) (hc2 : S.conv src S.sqQuote = some c2)
-    (hc3 : S.conv src S.gmxQuote = some c3) (hc4 : S.conv src S.derCfg.token = some c4) :
+    (hc3 : S.conv src S.gmxQuote = some c3) (hc4 : S.conv src S.derCfg.token = some c4) (hc5 : S.conv src S.aaveQuote = some c5) :
     let w := worldAfter (marketsValuation S) pre w0
+    (∃ ts tb, Aave.specTotalSupply aaveExact w.aenv w.aave.supplies = .ok ts ∧ Aave.specTotalBorrows aaveExact w.aenv w.aave.borrows = .ok tb ∧
+      |ab.netValue - (ts - tb)| ≤ 1 / 10000) ∧
     (acctRow NumCtx.exact (marketsValuation S) src w).map (·.netValue) =
       some (a + Uni.sumOver (Uni.posValue S.pool row.price amt) w.uni.positions * c0 +
         Squeeth.sumIf (fun kp => !kp.2.transferred) (Squeeth.poolVal w.env) w.sq.positions * c1 +
         ((Squeeth.sumIf (fun kp => kp.2.transferred) (Squeeth.idxVal w.env) w.sq.positions + (w.sq.vaults.map (·.2.coll)).sum) * w.env.weth -
           (w.sq.vaults.map (·.2.short)).sum * (w.env.osqth * w.env.weth)) * c2 +
         (w.gmx.glp * w.genv.glpPrice + w.gmx.reward * (w.genv.wavaxPrice / 10 ^ 30)) * c3 +
-        (w.der.cash + Deribit.markValue S.derCfg w.der.book w.der.positions) * c4) :=
-  C01_e2e_row_value S hK hcx hder src _ hgrid row sqrt amt hrow hsqrt hamt bs hbs (C01_e2e_once_along_the_run S w0 h0 pre)
-    (C01_e2e_dict_along_the_run S w0 hd pre).1 (C01_e2e_dict_along_the_run S w0 hd pre).2 a c0 c1 c2 c3 c4 ha hc0 hc1 hc2 hc3 hc4
+        (w.der.cash + Deribit.markValue S.derCfg w.der.book w.der.positions) * c4 +
+        ab.netValue * c5) :=
+  C01_e2e_row_value S hK hcx hder haave src _ hgrid hgood ab hab row sqrt amt hrow hsqrt hamt bs hbs (C01_e2e_once_along_the_run S w0 h0 pre)
+    (C01_e2e_dict_along_the_run S w0 hd pre).1 (C01_e2e_dict_along_the_run S w0 hd pre).2 a c0 c1 c2 c3 c4 c5 ha hc0 hc1 hc2 hc3 hc4 hc5
 
 /-! ### non-vacuity: three bars, five markets (the GMX market holds 50 GLP of a supply of 100 and accrues its reward in `update()` every bar; the
     option market holds 2 ETH of cash, `on_bar` of bar 2 deposits 1 ETH more).  Bar 0: `on_bar` adds liquidity on market 0 and opens a vault with the LP position
@@ -292,7 +275,7 @@ def e2eEnd : World := worldAfter (marketsValuation e2eSetup) (run e2eCfg [] e2eS
 end Core
 
 example : (run e2eCfg [] e2eScript).err = none ∧ (barIndex e2eCfg).Pairwise (· < ·) := by decide
--- the run moves all five markets and the wallet …
+-- the run moves five of the six markets (the Aave market of this example is empty) and the wallet …
 example : e2eEnd.wallet = [("a", 9), ("b", 9), ("WETH", 7676 / 997), ("OSQTH", 9), ("ETH", 3)] := by decide +kernel
 example : e2eEnd.sq.vaults = [(1, { coll := 2, short := 1, nft := some (18000, 21000) })] ∧
     e2eEnd.sq.positions.map (fun kp => kp.2.transferred) = [true] := by decide +kernel
@@ -300,7 +283,7 @@ example : e2eEnd.uni.positions.map (fun p => (p.lower, p.upper, p.liq, p.transfe
 example : (e2eEnd.gmx.glp, e2eEnd.gmx.reward) = (50, 90) := by decide +kernel
 example : (e2eEnd.der.cash, e2eEnd.der.onGrid) = (3, true) := by decide +kernel
 example : (marketsBalances e2eSetup e2eEnd).map (·.nv) =
-    [15, 0, 243745693287264562601009273476519 / 49517601571415210995964968960, 1875, 3] := by decide +kernel
+    [15, 0, 243745693287264562601009273476519 / 49517601571415210995964968960, 1875, 3, 0] := by decide +kernel
 -- … and the hypotheses of `C01_e2e_row_value` hold in it: the balances return, the prices are there, the containers are dicts, `Once`
 example : (Squeeth.marketBalance NumCtx.exact e2eEnd.env e2eEnd.sqIn).toOption.isSome = true ∧
     (e2eEnd.sq.vaults.map (·.1)).Nodup ∧ (e2eEnd.sq.positions.map (·.1)).Nodup ∧
